@@ -90,9 +90,9 @@ func (s *PathState) sig() string {
 type PathQ struct {
 	Fn         *ssa.Function
 	StartEntry bool
-	StartAfter []ssa.Instruction // start just after these instructions
-	StartEdges []Edge            // start at the head of Edge.To, having come from Edge.From
-	Tracked    []ssa.Value       // values bound to the tracked object at the start
+	StartAfter []ssa.Instruction        // start just after these instructions
+	StartEdges []Edge                   // start at the head of Edge.To, having come from Edge.From
+	Tracked    []ssa.Value              // values bound to the tracked object at the start
 	Consts     map[ssa.Value]*ssa.Const // values (e.g. a bool parameter) fixed to a constant for this query
 	Sink       func(in ssa.Instruction, st *PathState) bool
 	SinkEdge   func(e Edge, st *PathState) bool
